@@ -54,7 +54,7 @@ mod rustc_hash_map {
 }
 
 /// the same structure rebuilt node by node in another environment
-fn intern(env: &BDDEnv<usize>, b: &BDD<usize>) -> B {
+pub fn intern(env: &BDDEnv<usize>, b: &BDD<usize>) -> B {
     match b {
         BDD::True => env.mk_const(true),
         BDD::False => env.mk_const(false),
@@ -170,8 +170,30 @@ fn c13_defs(out: &mut dyn Write, tier: &str, rng: &mut Rng, st: &mut Stats) {
     }
 }
 
+/// one formula with fixed points that need several rounds, evaluated repeatedly in its own long-lived
+/// environment (what `rsbdd -b N` does): every evaluation must be the evaluation in a fresh environment
+fn c13_twice(out: &mut dyn Write, tier: &str, rng: &mut Rng, st: &mut Stats) {
+    use crate::formula::*;
+    let n = if tier == "thorough" { 6000 } else { 300 };
+    for i in 0..n {
+        let gf = c06_formula(rng, if i % 2 == 0 { 1 } else { i }, st);
+        let gf = if i % 3 == 0 { GF::Bin(7, Box::new(gf.clone()), Box::new(gf)) } else { gf }; // the same fixed point twice in one formula
+        let text = Printer { rng, noise: false }.print(&gf);
+        let pf = match parse_text(text.as_bytes(), None) { Parsed::Ok(p) => p, _ => continue };
+        let fresh = match parse_text(text.as_bytes(), None) { Parsed::Ok(p) => match eval_guarded(&p) { Ok(b) => show_ns(&b), Err(_) => "PANIC".to_string() }, _ => continue };
+        for round in 0..3 {
+            crate::watchdog::enter(&text);
+            let res = match eval_guarded(&pf) { Ok(b) => show_ns(&b), Err(_) => "PANIC".to_string() };
+            crate::watchdog::leave();
+            writeln!(out, "C13|defs|{}||{}|{}", ser_real(&pf.bdd), res, fresh).unwrap();
+            st.hit(&format!("twice.round{}", round));
+        }
+    }
+}
+
 pub fn c13(out: &mut dyn Write, tier: &str, rng: &mut Rng, st: &mut Stats) {
     c13_defs(out, tier, rng, st);
+    c13_twice(out, tier, rng, st);
     let hists = if tier == "thorough" { 2000 } else { 60 };
     for h in 0..hists {
         let env: BDDEnv<usize> = BDDEnv::new();
